@@ -132,6 +132,9 @@ def generate(ctx):
         if rng.random() < 0.3:
             kw["ppqn"] = rng.choice([12, 48, 96, 6])      # a tokeniser built for another resolution
             ctx.count("ppqn:non-default")
+        if rng.random() < 0.25:
+            kw["pitch_range"] = rng.choice([(120, 127), (0, 8), (123, 127)])      # both ends of the MIDI pitch range
+            ctx.count("pitch-range:extreme")
         if rng.random() < 0.2:
             kw["note_values"] = rng.choice([[24, 48, 96, 144, 192], [12, 100, 7]])      # fields wider than their zero padding
             ctx.count("values:three-digit")
